@@ -111,6 +111,18 @@ DOCS_Q += [
 ]
 
 
+DOCS_Q += [
+    [S('schema', keytype='identifier'), S('sectiontype', name='ta', keytype='basic-key'),
+     S('key', name='Kx'), E('key'), E('sectiontype'),
+     S('key', name='Ka'), E('key'), S('key', name=H(2, 'k1')), E('key'),
+     S('key', name='+', attribute='any'), S('default', key='Da'), ('c', 'x'), E('default'),
+     S('default', key=H(2, 'd1')), ('c', 'y'), E('default'), E('key'), E('schema')],
+    [S('schema'), S('sectiontype', name='ta', keytype='identifier'), S('key', name='Kx'), E('key'), E('sectiontype'),
+     S('sectiontype', name='tb', extends='ta'), E('sectiontype'),
+     S('key', name='Ka'), E('key'), S('key', name=H(2, 'k1')), E('key'), E('schema')],
+]
+
+
 def variants(docs):
     """for every document and every symbolic attribute value: the same document with that value
     empty, and with the attribute left out"""
